@@ -170,7 +170,9 @@ TWINS: list[tuple[str, str, str, str]] = [
      "        \"|\": 0,\n        \"^\": 10,\n        \"&\": 20,\n        \"<<\": 30,\n        \">>\": 30,\n        \"+\": 40,\n        \"-\": 40,\n        \"*\": 50,\n        \"/\": 50,\n        \"%\": 50,\n        \"-u\": 60,\n        \"~\": 60,\n        \"sizeof\": 60,"),
     ("twin-flag-shift", "parser.py", "nextval = 2 ** (high_bit + 1)", "nextval = 1 << (high_bit + 1)"),
     ("twin-new-alias", "cstruct.py", "            \"uint\": \"uint32\",", "            \"uint\": \"uint32\",\n            \"u32\": \"uint32\","),
-    ("twin-roundup-mod", "types/structure.py", "            offset += -offset & (alignment - 1)\n\n        # The structure size", "            offset += -offset % alignment\n\n        # The structure size"),
+    # (the tail padding 'offset += -offset & (alignment - 1)' has no modulo twin: alignment is 0 for an empty structure, where % would divide by zero -
+    #  the layout fold found that this former twin was not behaviour-preserving)
+    ("twin-roundup-mod", "types/structure.py", "                offset += -offset & (field.alignment - 1)", "                offset += -offset % field.alignment"),
     ("twin-typedef-boundary", "parser.py", "r\"typedef(?=\\s)\"", "r\"typedef\\b(?=\\s)\""),
     ("twin-log-in-handler", "compiler.py", "            log.debug(\"Failed to compile %s\", structure, exc_info=e)", "            log.debug(\"Failed to compile %s\", structure, exc_info=e)\n            log.debug(\"falling back to the interpreted reader\")"),
     ("twin-proxy-ifexp", "types/structure.py", "                    union_attr = attr or field._name", "                    union_attr = attr if attr is not None else field._name"),
